@@ -101,7 +101,7 @@ type world struct {
 
 func run(c *vf.Ctx) {
 	log.SetOutput(io.Discard) // ServeAgent logs every failed request
-	c.Rule("sequence mode: every history over the operation alphabet up to depth D (4 quick, 6 thorough), a successor being expanded only when (private keyring state read verbatim through the hook, model state) is new; each history replayed from scratch on a fresh keyring directly, through the pipelined client<->ServeAgent and through the serialised client<->ServeAgent, every step compared with the abstract agent. A state is non-trivial from depth 2 on. Totality: every request body of <=3 bytes, and every truncation, internal length-field rewrite and frame-length rewrite of every valid request message, through ServeAgent without panic")
+	c.Rule("sequence mode: every history over the operation alphabet up to depth D (4 quick, 6 thorough), a successor being expanded only when (private keyring state read verbatim through the hook, model state) is new; each history replayed from scratch on a fresh keyring directly, through the pipelined client<->ServeAgent and through the serialised client<->ServeAgent, every step compared with the abstract agent. A state is non-trivial from depth 2 on. Hardening: in EVERY history each slice handed to the agent (passphrase, data) is a private copy that is overwritten when the call returns and each slice handed out (listed blobs, signature blobs) is overwritten after inspection (exception: the passphrase given to Lock on the keyring directly, which keyring.Lock keeps as upstream does); every history of length <=2 (thorough 3) over the whole alphabet appended to 8 prefixes that build non-empty states (four identities, staggered / partly elapsed lifetimes, locked, replaced entries, slice reordered by removals); 51 scripted histories through one connection with Sign over 1 B .. 4 MiB+1 (17 sizes incl. 2^k+-1) in ascending / descending / alternating order between small Lock/Unlock/List/Remove requests, comments and passphrases of 255..65537 bytes, and wrong passphrases that differ from the right one in length, last byte, case, a NUL or a blank. Totality: every request body of <=3 bytes, and every truncation, internal length-field rewrite and frame-length rewrite of every valid request message, through ServeAgent without panic")
 	c.Assume("keys are fixed test keys (ssh/testdata); signatures are verified by the independent verifier ref/sshsigref (stdlib rsa/ecdsa/ed25519)")
 	c.Assume("time: lifetimes are 1000 s and the clock advances in steps of 600 s by moving the stored expiry times through the verif hook (keyring.go reads time.Now() directly); no real waiting, the 400 s margin makes wall-clock jitter irrelevant")
 	c.Assume("List/Signers are compared as sets (the abstract agent has no order); Signers on a locked agent may fail or return nothing")
